@@ -610,6 +610,8 @@ func (jp *jobProvider) truncateJob(job *Job) {
 	job.ignoreEventsLE = job.lastEventSeq
 
 	job.seek(0, io.SeekStart, "truncation")
+	// bytes of an unterminated line read before the truncation don't belong to the new content
+	job.tail = job.tail[:0]
 
 	for _, strOff := range job.offsets {
 		job.offsets.Set(strOff.Stream, 0)
